@@ -148,6 +148,24 @@ def gen_case(seed, tier):
             t['target'] = {'t': 'simiter', 'n': ctx.new_nid(), 'v': [rng.randint(0, 5) for _ in range(rng.randint(2, 6))]}
             t['kw'] = {'scope': [['sv', vals[i]]]}
             t.pop('via', None)
+    # one REDUCTION spec object (Sum / Flatten / Merge / Fold / Group) shared by calls that fold different
+    # streams at the same time: what one call has accumulated so far is its own
+    elif ntasks >= 2 and rng.random() < 0.1:
+        kind = rng.choice(['sum', 'flatten', 'merge', 'fold', 'group'])
+        shared = [{'sum': ['Sum'], 'flatten': ['Flatten'], 'merge': ['Merge'],
+                   'fold': ['Fold', ['T', 'T', []], ['fn', 'int'], ['fn', 'add']],
+                   'group': ['Group', ['dict', [[{'t': 'spec', 'v': ['fn', 'mod2']}, ['list', [['T', 'T', []]]]]]]]}[kind]]
+
+        def item():
+            if kind == 'flatten':
+                return {'t': 'list', 'v': [rng.randint(0, 9) for _ in range(rng.randint(0, 2))]}
+            if kind == 'merge':
+                return {'t': 'dict', 'v': [[rng.choice(['a', 'b', 'c']), rng.randint(0, 9)]]}
+            return rng.randint(0, 9)
+        for t in tasks:
+            t['spec'] = ['shared', 0]
+            t['target'] = {'t': 'simiter', 'n': ctx.new_nid(), 'v': [item() for _ in range(rng.randint(2, 6))]}
+            t['kw'] = {}
     # registries: some tasks go through Glommers that carry their own registrations
     glommers = []
     default_regs = []
